@@ -240,6 +240,72 @@ func (s *Sim) buildPoolTx(kind int) *MTx {
 	return t
 }
 
+// buildTargetedReplacement crafts a replacement for a pooled, replaceable
+// transaction that has pooled descendants: its absolute fee sits at the
+// boundary "fees of everything evicted + relay fee" (+/- a little) and its
+// size is padded with outputs so that its fee RATE falls anywhere between the
+// rates of the evicted transactions.
+func (s *Sim) buildTargetedReplacement() *MTx {
+	c := s.r.C
+	w := s.w
+	tip := s.n.Tip()
+	pool := s.n.Pool
+	pre := s.poolSet()
+	var victims []*MTx
+	for _, h := range pre {
+		t := w.AllTx[h]
+		if t == nil || len(t.Ins) == 0 {
+			continue
+		}
+		if _, ok := tip.View[t.Ins[0]]; !ok {
+			continue // keep it simple: the contested input is a chain output
+		}
+		if len(s.poolDescendants(pre, map[chainhash.Hash]bool{h: true})) >= 2 || c.Bool(200, "victim-without-child") {
+			victims = append(victims, t)
+		}
+	}
+	if len(victims) == 0 {
+		return nil
+	}
+	v := victims[c.Intn(len(victims), "victim")]
+	ev := s.poolDescendants(pre, map[chainhash.Hash]bool{v.Hash: true})
+	var sum int64
+	for h := range ev {
+		f, ok := s.feeOf(w.AllTx[h])
+		if !ok {
+			return nil
+		}
+		sum += f
+	}
+	rec := tip.View[v.Ins[0]]
+	if rec == nil || pool.CheckSpend(v.Ins[0]) == nil {
+		return nil
+	}
+	p := &txPlan{Version: 2, Ins: []planIn{{Op: v.Ins[0], Rec: rec, Seq: 0xfffffffd}}}
+	nout := simkit.Range(c, 1, 60, "repl-outs")
+	// approximate size to place the absolute fee at the boundary
+	approx := int64(60 + 34*nout + 110)
+	relay := approx * int64(s.n.cfg.Pool.MinRelayTxFee) / 1000
+	fee := sum + relay + int64(c.Intn(2001, "repl-delta")) - 1000
+	if fee < 0 {
+		fee = 0
+	}
+	if fee >= rec.Value {
+		return nil
+	}
+	left := rec.Value - fee
+	for i := 0; i < nout; i++ {
+		val := left / int64(nout-i)
+		left -= val
+		p.Outs = append(p.Outs, &wire.TxOut{Value: val, PkScript: w.script(KP2PKH, c.Intn(len(w.Keys), "repl-key"))})
+	}
+	t := w.makeTx(p)
+	t.Fee = fee
+	w.addTx(t)
+	s.r.Probe("targeted-replacement-built")
+	return t
+}
+
 // feeOf recomputes a transaction's fee from the harness's own amounts.
 func (s *Sim) feeOf(t *MTx) (int64, bool) {
 	var in int64
